@@ -211,8 +211,8 @@ func VerifC14Handle() {
 		return got
 	}
 	for i := 0; i < K; i++ {
-		c := verifChoice(verifName("call", i), 6)
-		verifTag("last-call", []string{"Read", "Stat", "Write", "Seek-end", "Truncate", "ReadDir"}[c])
+		c := verifChoice(verifName("call", i), 7)
+		verifTag("last-call", []string{"Read", "Stat", "Write", "Seek-end", "Truncate", "ReadDir", "Chmod"}[c])
 		switch c {
 		case 0:
 			buf := make([]byte, 1)
@@ -265,6 +265,16 @@ func VerifC14Handle() {
 			}
 		case 5:
 			_, _ = hackpadfs.ReadDirFile(h, -1)
+		case 6:
+			// a Chmod through the handle that reports success is in the store (also when it repeats one that failed)
+			cerr := hackpadfs.ChmodFile(h, 0600)
+			if cerr == nil {
+				savedAt, savedCalls := store.faultAt, store.calls
+				store.faultAt = -1
+				info, serr := hackpadfs.Stat(fs, target)
+				store.faultAt, store.calls = savedAt, savedCalls
+				verifAssert(serr == nil && info.Mode().Perm() == 0600, "Chmod through the handle reported success but a fresh Stat does not show the mode")
+			}
 		}
 	}
 	verifReach("handle-calls-returned")
